@@ -7,13 +7,14 @@
    started / really analysed / purged as identical (Config, ConfigChecked, HashSkip events) plus the findings.
 3. TLC (step "judge") evaluates HonourD, HonourU, Cover, SkipSound, ReportExact on every observation.
 4. Failing cases are reduced: a failing case one of whose one-step reductions (a conditional removed or replaced by
-   one of its branches, an #else dropped, an option dropped) also fails is subsumed by it; the remaining cores are
+   one of its branches, an #else dropped, '#if defined(M)' respelled '#ifdef M', an option dropped) also fails is subsumed by it; the remaining cores are
    re-run alone (one file, one process), re-judged and reported, keyed by structure + option set.
 """
 import concurrent.futures as cf
 import json
 import os
 import re
+import shutil
 import sys
 import time
 
@@ -47,8 +48,8 @@ SLAB = 2500          # structures per observe/judge slab
 TIERS = {
     # NFULL: all spellings exhaustively; NFULL < n <= NPOL: polarity shapes with seeded spelling; MOD: stride of the largest
     # stratum; NOPT: structures with <= NOPT nodes get CfgSelect!FullOpts, larger ones LightOpts
-    "quick": {"NFULL": 3, "NPOL": 4, "DEPTH": 3, "MOD": 1, "NOPT": 2, "LAWN": 3, "LAWP": 4},
-    "thorough": {"NFULL": 4, "NPOL": 5, "DEPTH": 3, "MOD": 2, "NOPT": 3, "LAWN": 4, "LAWP": 5},
+    "quick": {"NFULL": 3, "NPOL": 4, "DEPTH": 3, "MOD": 3, "NOPT": 2, "LAWN": 3, "LAWP": 4},
+    "thorough": {"NFULL": 4, "NPOL": 5, "DEPTH": 3, "MOD": 4, "NOPT": 3, "LAWN": 4, "LAWP": 5},
 }
 ENV0 = {"SEED": "0", "NFULL": "0", "NPOL": "0", "DEPTH": "0", "MOD": "1", "NOPT": "0",
         "OUT": "/dev/null", "CASES": "/dev/null", "OBS": "/dev/null"}
@@ -89,16 +90,10 @@ def slabs(path, size):
         yield cur
 
 
-def render(items, work, tag):
-    """items: [(forest, opt)] -> cases with lines computed by TLC (step render)."""
-    cp = os.path.join(work, "rc-%s.ndjson" % tag)
-    op = os.path.join(work, "ro-%s.ndjson" % tag)
-    vlib.write_ndjson(cp, [{"id": i + 1, "forest": fo, "opts": [c12_run.norm_opt(o)]} for i, (fo, o) in enumerate(items)])
-    tlc_step("render", {"CASES": cp, "OUT": op}, timeout=900)
-    cases = vlib.read_ndjson(op)
-    if len(cases) != len(items):
-        raise vlib.InfraError("CfgSelect render: count mismatch")
-    return cases
+def local_cases(items):
+    """items: [(forest, opt)] -> cases rendered by the driver; the judge verifies the rendering (RenderOk)."""
+    return [{"id": i + 1, "n": c12_run.count_nodes(fo), "forest": fo, "lines": c12_run.lines_of(fo), "opts": [c12_run.norm_opt(o)],
+             "local": True} for i, (fo, o) in enumerate(items)]
 
 
 def laws(tier, seed):
@@ -139,7 +134,8 @@ def judge(cases, obs, work, tag, parts=JUDGES):
         cp = os.path.join(work, "jc-%s-%d.ndjson" % (tag, i))
         op = os.path.join(work, "jo-%s-%d.ndjson" % (tag, i))
         bp = os.path.join(work, "jb-%s-%d.ndjson" % (tag, i))
-        vlib.write_ndjson(cp, [{"id": c["id"], "forest": c["forest"], "opts": c["opts"]} for c in cs])
+        vlib.write_ndjson(cp, [dict({"id": c["id"], "forest": c["forest"], "opts": c["opts"]}, **({"lines": c["lines"]} if c.get("local") else {}))
+                               for c in cs])
         vlib.write_ndjson(op, [{"id": c["id"],
                                 "runs": [{"cfgs": [{"names": g["names"], "st": g["st"]} for g in r["cfgs"]],
                                           "reported": r["reported"], "others": r["others"], "rc": r["rc"]} for r in obs[c["id"]]]}
@@ -149,6 +145,8 @@ def judge(cases, obs, work, tag, parts=JUDGES):
         bad = vlib.read_ndjson(bp)
         if not m or int(m.group(2)) != len(bad):
             raise vlib.InfraError("CfgSelect judge gave no verdict\n" + r.out[-2000:])
+        if any("RenderOk" in b["failed"] for b in bad):
+            raise vlib.InfraError("drivers/c12_run.lines_of disagrees with CfgSelect!LinesOut")
         for f in (cp, op, bp):
             os.unlink(f)
         return bad, [int(m.group(j)) for j in (1, 3, 4)]
@@ -175,7 +173,7 @@ class Item:
 def minimise(pool, failing, ran, work):
     """failing: {key: Item}; ran: set of keys of all cases already run (failing or not).
     A failing case is *subsumed* if one of its one-step reductions (a conditional removed / replaced by one of its
-    branches / an #else dropped / one option dropped) fails too; the others are the *cores* that get reported.
+    branches / an #else dropped / '#if [!]defined(M)' respelled '#if[n]def M' / one option dropped) fails too; the others are the *cores* that get reported.
     Reductions that were not part of the enumeration are rendered, run and judged like every other case."""
     frontier = dict(failing)
     cores = []
@@ -201,7 +199,7 @@ def minimise(pool, failing, ran, work):
         new = {}
         if todo:
             keys = sorted(todo)
-            cases = render([todo[k] for k in keys], work, "m%d" % rounds)
+            cases = local_cases([todo[k] for k in keys])
             obs, _ = observe(pool, cases, os.path.join(work, "min%d" % rounds))
             bad, _st = judge(cases, obs, work, "m%d" % rounds)
             extra += len(cases)
@@ -231,7 +229,7 @@ def confirm(pool, cores, work):
 def violation_of(item):
     s = item["case"]
     o = s["opts"][0]
-    payload = {"forest": s["forest"], "lines": s["lines"], "opt": o, "n": s["n"], "combos": s["combos"],
+    payload = {"forest": s["forest"], "lines": s["lines"], "opt": o, "n": s["n"],
                "source": c12_run.render(s["lines"]), "args": c12_run.opt_args(o),
                "observed": item["run"], "verdict": item["verdict"]}
     key = vlib.digest({"forest": s["forest"], "opt": o})
@@ -252,6 +250,7 @@ def main(tier, seed, replay=None):
         return do_replay(replay)
     p = TIERS[tier]
     work = vlib.mktmp("c12")
+    shutil.rmtree(os.path.join(vlib.OUT, "replays", PID), ignore_errors=True)   # replays of earlier runs
     failing = {}
     ran = set()
     stats = {"judged": 0, "cover_demanded": 0, "nontrivial": 0}
@@ -345,7 +344,7 @@ def main(tier, seed, replay=None):
 def do_replay(path):
     payload = json.load(open(path))
     work = vlib.mktmp("c12r")
-    cases = render([(payload["forest"], payload["opt"])], work, "replay")
+    cases = local_cases([(payload["forest"], payload["opt"])])
     with cf.ProcessPoolExecutor(max_workers=1) as pool:
         obs, _ = observe(pool, cases, os.path.join(work, "runs"), batch=1)
     bad, _st = judge(cases, obs, work, "replay", parts=1)
